@@ -4,23 +4,23 @@ PENDING = {}
 EXTRA_CORR = {
  "C01": " Also: arrays of 1023..4096 elements (around the parser's pre-allocation cap), bulks around 4 KiB / 16 KiB / 64 KiB. A value serialized twice, and changed through its public API after its first serialization.",
  "C02": " Also: values on the same thresholds followed by further values, splits a few bytes either side of every value boundary; chunked pipelines through the server's connection loop with the client pausing at every cut (read deadlines in virtual time). A neighbour parser of the same process fed malformed streams in between (all processors / one). The last read returning its bytes together with io.EOF. Theorem C02_any_end_of_stream_delivery: a transport modelled as a list of Read outcomes (bytes / bytes with an error / an error), read through the data-first adapter, yields exactly the values of the bytes delivered.",
- "C03": " Also: a second client that does not read its large replies (this connection's requests must still be answered). Every pair of extreme integers as offset/count and start/stop of the derived range commands; a request sent after an idle pause on plain / TLS connections (pause = durations found in the source + 2 s, 35 s in the thorough tier).",
+ "C03": " Also: a second client that does not read its large replies (this connection's requests must still be answered). Every pair of extreme integers as offset/count and start/stop of the derived range commands; a request sent after an idle pause on plain / TLS connections (pause = durations found in the source + 2 s, 35 s in the thorough tier). Patterns with translator-relevant characters at their edges (trailing backslash, unclosed bracket) in SCAN MATCH.",
  "C04": " Also: a client that stops reading mid-reply (partial writes, write deadlines in virtual time; nothing may follow a truncated frame); a reply pending for a slow client while other connections' replies are encoded and written. Handler results of 1023 .. 4097 elements, flat and nested, followed by further requests. Handler results of a type outside the five, alone and inside arrays.",
  "C05": " Also: requests delivered in k-way chunks and one chunk per element; arguments of 4 KiB .. 70 KB. Replies collected from several handler calls (MGET, HMGET) with one call failing. Line-type handler results that are not valid UTF-8.",
  "C06": " Also: arrays beyond the pre-allocation cap cut at / around every element boundary near the cap and its doublings; a 20 s watchdog per parse (a parser that does not return is a violation). Every byte value as type byte in front of ten length / payload shapes.",
- "C07": " Also: an offender that pipelines large replies and never reads them; a real-socket run with CONFIG SET loops, connection churn and a witness connection with exact replies. 24 plain and TLS clients connecting at the same moment, each served on its own socket.",
+ "C07": " Also: an offender that pipelines large replies and never reads them; a real-socket run with CONFIG SET loops, connection churn and a witness connection with exact replies. 24 plain and TLS clients connecting at the same moment, each served on its own socket. One element named more often than its container has elements.",
  "C08": " Theorem C08_password_gate_any_transport: the same gate for connections of any transport (plain, TLS with any verified chain) and servers with further authenticators. Also explored: histories on TLS connections with and without a certificate rule. AUTH implemented by the built-in executor, by an application executor on the public Server.Auth, and by an application AuthCommandHandler replying errors as messages; commands without an executor (HELLO 3) before AUTH.",
- "C09": " Also: a foreign CA that the HOST trusts (system trust store); client-CA rotation followed by Restart (retired-CA clients refused, new-CA clients let in). Password changes (CONFIG SET requirepass; SetRequirePass + Restart, twice) followed by clients the rule turns away; seven near-miss common names (case, U+017F, blanks, one character less / more).",
+ "C09": " Also: a foreign CA that the HOST trusts (system trust store); client-CA rotation followed by Restart (retired-CA clients refused, new-CA clients let in). Password changes (CONFIG SET requirepass; SetRequirePass + Restart, twice) followed by clients the rule turns away; seven near-miss common names (case, U+017F, blanks, one character less / more). A server certificate file that bundles an intermediate of another hierarchy, and a client certificate issued by that intermediate.",
  "C10": " Also: malformations and ill-formed SELECTs on a connection that has selected database 3 (the selection must survive the refusal). 28 non-float tokens incl. doubled parentheses, blanks, digit separators. Theorem C10_digit_separators_are_not_floats: a token containing an underscore is not a float of the argument grammar (plain or as a range bound).",
  "C11": " Also: a request of 1030 .. 4100 elements cut at / around every element boundary near 1024 and its doublings. Requests written as text lines cut at every byte (a line without its CR LF is a partial request).",
- "C12": " Also: replies of 513 .. 4098 elements (ZREVRANGE / ZREVRANGEBYSCORE / HKEYS / HVALS / HMGET / MGET).",
+ "C12": " Also: replies of 513 .. 4098 elements (ZREVRANGE / ZREVRANGEBYSCORE / HKEYS / HVALS / HMGET / MGET). CONFIG parameter names in mixed case.",
  "C13": " Also: two-argument AUTH and CONFIG SET requirepass in the histories (another connection's authorization must not move). The three AUTH implementations of C08 rotated over the password cases. Every split of the password as (user, password) on a second connection after the first authenticated.",
  "C14": " The translator also tracks elements of shared slices / maps and local aliases used after the lock was released; the stress also rotates credentials (ClearAuthenticators / AddAuthenticator) and sends 66 .. 140 KB values. Process-wide state: package-level variables written at run time are rows credited with package-level locks only; a second Server in the stress process; non-request top-level values.",
- "C15": " Also: TLS clients whose certificate is refused / whose handshake fails (registry exactness); both ports enabled without a certificate (Start fails; Stop must release what was opened). Clients idling on plain / TLS 1.2 / TLS 1.3 connections (see C03).",
- "C16": " Also: a server with a password where every client first sends a refused command, then AUTH, then works. Empty values in the histories. Keys with a TTL that were overwritten, read back after the TTL ran out.",
+ "C15": " Also: TLS clients whose certificate is refused / whose handshake fails (registry exactness); both ports enabled without a certificate (Start fails; Stop must release what was opened). Clients idling on plain / TLS 1.2 / TLS 1.3 connections (see C03). Clients that send QUIT and keep their socket open (no goroutine and no open server side left at Stop).",
+ "C16": " Also: a server with a password where every client first sends a refused command, then AUTH, then works. Empty values in the histories. Keys with a TTL that were overwritten, read back after the TTL ran out. The same write twice in a row by one client while others write the key.",
  "C17": " Also: non-ASCII characters (valid UTF-8); SCAN continued from a non-zero cursor with another pattern on the same connection; complete SCAN iterations (SCAN 0, then the returned cursors until 0) for every COUNT in {1,2,3,5,10,n-1,n,n+1} beside the store model, the collected keys compared with KEYS. Eight goroutines compiling and matching at once; every alphabetic string literal of the source (option words, command names) as a literal pattern. The pattern as a simple string in the middle of three segments.",
  "C18": "",
- "C19": " Also: stray line breaks / lone type bytes before FIN; Server.Stop while a reply write waits for a stalled client, while idle and inside a request. A certificate rejected WITH an error value by an application authenticator (revocation list). A watchdog reports a server that no longer answers instead of hanging.",
+ "C19": " Also: stray line breaks / lone type bytes before FIN; Server.Stop while a reply write waits for a stalled client, while idle and inside a request. A certificate rejected WITH an error value by an application authenticator (revocation list). A watchdog reports a server that no longer answers instead of hanging. A reader stalled longer than every duration found in the source, with more replies pending than the socket buffers hold.",
  "C20": "",
 }
 TB = ("Trusted: Coq 8.16.1 kernel (vm_compute in reflexive steps, no native_compute); no axioms (Print Assumptions parsed on every run: Closed under the global context); "
